@@ -36,7 +36,8 @@ def units(tier):
 
 def sweep(seed, tier):
     rnd = random.Random(seed)
-    shapes = [["68656c6c6f", "616263"], ["41"], ["00" * 10, "0d0a", "3132"], ["61" * 17], [], ["0a0d0a", "30"]]
+    shapes = [["68656c6c6f", "616263"], ["41"], ["00" * 10, "0d0a", "3132"], ["61" * 17], [], ["0a0d0a", "30"],
+              ["78350d0a79"], ["350d0a350d0a"]]  # chunk data that contains its own size line ("x5\r\ny", "5\r\n5\r\n")
     if tier != "quick":
         shapes += [[("%02x" % rnd.randrange(256)) * rnd.randrange(1, 30) for _ in range(rnd.randrange(1, 4))] for _ in range(10)]
     for bodies in shapes:
